@@ -287,6 +287,17 @@ FUZZ_CORPUS = [R.serialize([0x76, 0xA9, b"\x11" * 20, 0x88, 0xAC]), R.serialize(
                b"\xfd\x03\x00\x02\x01\x02"]
 
 
+# ------------------------------------------------------------------------------------ first use from several threads
+def _cold_build(it):
+    from vlib.cold import enc
+    kind, cmds, v = it
+    if kind == "varint":
+        return (["helper", "encode_varint", [v]], enc(R.encode_varint(v)), "encode_varint(%d)" % v)
+    cmds = list(cmds)
+    return (["script", "Script", [[enc(c) if isinstance(c, bytes) else c for c in cmds]], [["serialize", []]]], enc(R.serialize(cmds)),
+            "Script(%d commands).serialize()" % len(cmds))
+
+
 def clauses():
     return [
         Clause("push-lengths", check_roundtrip,
@@ -333,4 +344,11 @@ def clauses():
                n={"quick": 3000, "thorough": 100000}, shards={"quick": 2, "thorough": 8},
                fuzz={"runs": {"quick": 30000, "thorough": 1500000}, "campaigns": {"quick": 2, "thorough": 8},
                      "max_len": 700, "corpus": FUZZ_CORPUS}),
+        __import__("vlib.cold", fromlist=["x"]).cold_clause(
+            "C19", st.tuples(st.sampled_from(["script", "script", "varint"]),
+                             st.lists(st.one_of(st.integers(0x4F, 0xFF), st.sampled_from([0, 0x51, 0x76, 0xA9, 0x87, 0x88, 0xAC, 0xAE]),
+                                                st.sampled_from([1, 20, 32, 33, 75, 76, 255, 256, 520]).flatmap(lambda n_: st.binary(min_size=n_, max_size=n_))),
+                                      min_size=1, max_size=6),
+                             st.one_of(st.sampled_from([0, 0xFC, 0xFD, 0xFFFF, 0x10000, 2 ** 32 - 1, 2 ** 32, 2 ** 64 - 1]), st.integers(0, 2 ** 64 - 1))),
+            _cold_build, "script serialisation and varint encoding"),
     ]
